@@ -9,6 +9,8 @@ def run(tier, seed, replay_path=None):
         return generic_replay(ck, replay_path)
     ck.engine()
     run_store_checks(ck, ['increment', 'decrement'], {'kind', 'value', 'flags', 'vis', 'result', 'frame', 'panic'}, K=2, tier=tier)
+    from .wire_rt import wire_roundtrip
+    wire_roundtrip(ck, tier, ('counter',))
     return ck.finish()
 
 
